@@ -101,6 +101,12 @@ def main():
         "suite passes on that copy): recognisers and known-finding keys must not depend on what locals are called",
     )
     ap.add_argument(
+        "--genexp",
+        action="store_true",
+        help="also run every check on a copy in which map/filter over a lambda is rewritten as a generator expression "
+        "(selftest/genexp.py; the suite passes on that copy)",
+    )
+    ap.add_argument(
         "--fstring",
         action="store_true",
         help="also run every check on a copy in which every constant-template .format() call is rewritten as an f-string "
@@ -158,6 +164,22 @@ def main():
                     r = subprocess.run([os.path.join(VERIF, "check"), p, "--root", os.path.join(tmp, "r"), "--evidence-dir", os.path.join(tmp, "ev"), "--quiet"], capture_output=True, text=True)
                     if r.returncode != 0:
                         print("ALPHA-RENAMED-TREE {} exit {} (wanted 0): {}".format(p, r.returncode, "\n".join(l for l in (r.stdout + r.stderr).splitlines() if not l.startswith("KNOWN"))[-400:]))
+                        bad += 1
+        finally:
+            shutil.rmtree(tmp, ignore_errors=True)
+    if a.genexp:
+        tmp = tempfile.mkdtemp(prefix="cddgen_")
+        try:
+            r = subprocess.run([sys.executable, os.path.join(HERE, "genexp.py"), a.repo, os.path.join(tmp, "r")], capture_output=True, text=True)
+            if r.returncode != 0 or "SYNTAX" in r.stdout:
+                print("GENEXP-REWRITE failed: {}".format((r.stdout + r.stderr)[-300:]))
+                bad += 1
+            else:
+                os.makedirs(os.path.join(tmp, "ev"))
+                for p in sorted({m["prop"] for m in muts}):
+                    r = subprocess.run([os.path.join(VERIF, "check"), p, "--root", os.path.join(tmp, "r"), "--evidence-dir", os.path.join(tmp, "ev"), "--quiet"], capture_output=True, text=True)
+                    if r.returncode != 0:
+                        print("GENEXP-TREE {} exit {} (wanted 0): {}".format(p, r.returncode, "\n".join(l for l in (r.stdout + r.stderr).splitlines() if not l.startswith("KNOWN"))[-400:]))
                         bad += 1
         finally:
             shutil.rmtree(tmp, ignore_errors=True)
